@@ -189,6 +189,7 @@ def main(pid, tier='quick', seed=0, replay=None, nworkers=None,
       harness_notes.extend(n_ for n_ in j['notes'] if 'HARNESS' in n_)
     keys.update(j['keys'])
     for k, v in j['margins'].items():
+      v = float(v)
       if v > margins.get(k, -1):
         margins[k] = v
     if j.get('sample') is not None and len(samples) < 6:
@@ -248,7 +249,9 @@ def main(pid, tier='quick', seed=0, replay=None, nworkers=None,
       'monitor_counters': dict(sorted(held.items())),
       'event_counters': dict(sorted(counters.items())),
       'inconclusive': dict(sorted(inconc.items())),
-      'worst_margin': {k: round(v, 6) for k, v in sorted(margins.items())},
+      'worst_margin': {k: (round(v, 6) if v == v and abs(v) != float('inf')
+                           else repr(v))
+                       for k, v in sorted(margins.items())},
       'known_findings_seen': [
           {'mechanism': m, 'count': e['n'], 'example': e['example']}
           for m, e in listed.items()],
